@@ -15,7 +15,7 @@ def accepting(cost, v, t):
     return (v >= t) if cost == 'r2' else (v < t)
 
 
-def first_accepting(pts, cfg, tables):
+def first_accepting(pts, cfg, tables, ctx=None, site=None, case=None):
     import kneeliverse.rdp as rdp
     import kneeliverse.evaluation as ev
     _, dist_enum, _, cost_enum, order_enum = tables
@@ -23,11 +23,23 @@ def first_accepting(pts, cfg, tables):
     ties = 0
     for k in range(2, n + 1):
         red, _ = rdp.rdp_fixed(pts, length=k, distance=dist_enum[cfg['dist']], order=order_enum[cfg['order']])
-        v = float(ev.compute_global_cost(pts, [int(i) for i in red], cost_enum[cfg['cost']], {}))
+        red = [int(i) for i in red]
+        v = float(ev.compute_global_cost(pts, red, cost_enum[cfg['cost']], {}))
         if v == cfg['t']:
             ties += 1
-        if accepting(cfg['cost'], v, cfg['t']):
-            return k, [int(i) for i in red], ties
+        acc = accepting(cfg['cost'], v, cfg['t'])
+        if ctx is not None and np.all(np.isfinite(pts)):
+            # the same decision with the global cost evaluated from its DEFINITION by the harness (independent of evaluation.py),
+            # wherever the threshold is not within rounding of it
+            vr, conclusive = rdpfam.gcost_ref(pts, red, cfg['cost'])
+            if conclusive and abs(vr - cfg['t']) > 1e-6 * (abs(vr) + abs(cfg['t'])) + 1e-12:
+                if accepting(cfg['cost'], vr, cfg['t']) != acc:
+                    ctx.fail('predicate', 'accepting-side-of-t-by-the-definition-of-the-global-cost', site, case,
+                             dict(k=k, S_k=red, global_cost_definition=vr, global_cost_package=v, t=cfg['t']))
+            elif not conclusive:
+                ctx.tag('global-cost-reference-inconclusive(near-zero y)')
+        if acc:
+            return k, red, ties
     return n, list(range(n)), ties
 
 
@@ -43,7 +55,7 @@ def one(ctx, which, pts, cfg, family):
         _, dist_enum, _, cost_enum, order_enum = tb
         try:
             if which in ('grdp', 'mp_grdp'):
-                kstar, Sk, ties = first_accepting(pts, cfg, tb)
+                kstar, Sk, ties = first_accepting(pts, cfg, tb, ctx, res['site'], res['case'])
                 if ties:
                     ctx.tag('tie:global-cost==t')
                 if which == 'grdp':
